@@ -147,7 +147,8 @@ def run_engine(ctx):
     recs = vlib.read_ndjson(trace)
     if not recs or recs[-1]["k"] != "end":
         raise vlib.Inconclusive("IRC harness did not finish its trace:\n%s" % out[-2000:])
-    steps = [x for x in recs if x["k"] == "step"]
+    steps = [x for x in recs if x["k"] in ("step", "snap")]
+    res["snapshot_round_trips_of_traced_replica"] = len([x for x in recs if x["k"] == "snap"])
     res["histories"] = len([x for x in recs if x["k"] == "reset"])
     res["steps"] = len(steps)
     res["steps_sup"] = len([x for x in steps if x["e"]["sup"]])
@@ -163,7 +164,10 @@ def run_engine(ctx):
     if "CONFORMING" not in rt.out or not rt.finished or rt.rc != 0:
         raise vlib.Inconclusive("IRCTrace did not consume the trace: rc=%s\n%s" % (rt.rc, rt.out[-3000:]))
     res["tlc"]["trace"] = {"generated": rt.generated, "distinct": rt.distinct, "wall_s": round(time.time() - t0, 1)}
-    byhi = {(x["h"], x["i"]): x for x in steps}
+    byhi = {}
+    for x in steps:
+        if x["k"] == "snap" or (x["h"], x["i"]) not in byhi:
+            byhi[(x["h"], x["i"])] = x
     starts = {}
     for idx, x in enumerate(recs):
         if x["k"] == "reset":
@@ -171,7 +175,7 @@ def run_engine(ctx):
 
     def history_upto(h, i):
         s = starts[h]
-        return [y["e"] for y in recs[s + 1:s + 1 + i]]
+        return [y["e"] for y in recs[s + 1:] if y["k"] == "step" and y["h"] == h and y["i"] <= i]
 
     for item in _parse_tuple_lines(rt.out):
         m = re.match(r'<<"PROP", <<"(C\d+)", "(\w+)">>, (\d+), (\d+)>>', item)
